@@ -23,6 +23,16 @@ def subharnesses(tier):
                         nep, npass, 'vring' if vring else 'novring', il),
                         {'nep': nep, 'npass': npass, 'vring': vring,
                          'order': il}))
+    # a transient failure of one IP-set removal (ipset returns an error, or
+    # the finish process is killed there); the finish is then run again, as
+    # the cleanup service does
+    for nep in (0, 1, 2):
+        for vring in (False, True):
+            for il in (2, 3):
+                subs.append(('ep%d-pass1-%s-order%d-ipset_fault' % (
+                    nep, 'vring' if vring else 'novring', il),
+                    {'nep': nep, 'npass': 1, 'vring': vring, 'order': il,
+                     'ipset_fault': True}))
     return subs
 
 
@@ -79,7 +89,17 @@ def harness(S, spec):
     def add_ip_set(target, ip):
         ipsets.setdefault(target, set()).add(ip)
 
+    fault_at = S.int('failing_ipset_removal', 0, 12) \
+        if spec.get('ipset_fault') else None
+    nrm = [0]
+
     def rm_ip_set(target, ip):
+        if fault_at is not None:
+            hit = nrm[0] == fault_at
+            nrm[0] += 1
+            if hit:
+                import subprocess
+                raise subprocess.CalledProcessError(1, 'ipset del')
         ipsets.setdefault(target, set()).discard(ip)     # ipset -exist del
 
     for mod in (_run, _finish):
@@ -174,8 +194,15 @@ def harness(S, spec):
                 b_running = True
         else:
             before_b = owned_by(un_b, VIP_B)
-            _finish._cleanup_network(env, os.path.join(root, 'c' + who),
-                                     apps[who], client)
+            import subprocess
+            try:
+                _finish._cleanup_network(env, os.path.join(root, 'c' + who),
+                                         apps[who], client)
+            except subprocess.CalledProcessError:
+                # the finish failed half-way; it is run again
+                S.reach('finish_failed_midway')
+                _finish._cleanup_network(env, os.path.join(root, 'c' + who),
+                                         apps[who], client)
             if who == 'B':
                 b_running = False
             elif b_running:
@@ -185,6 +212,8 @@ def harness(S, spec):
                         {'before': before_b,
                          'after': owned_by(un_b, VIP_B)})
     S.reach('ran')
+    if spec.get('ipset_fault'):
+        S.assume(nrm[0] > fault_at)       # the failing call was reached
     final = snapshot()
     S.check('C16:host_state_not_restored_after_all_containers_finished',
             final == initial, {'left': final})
@@ -200,5 +229,6 @@ META = {
         'unlink_rule', 'endpoints.EndpointsMgr.create_spec / unlink_all',
         'appcfg.app_unique_name', 'firewall.DNATRule / SNATRule / '
         'PassThroughRule'],
-    'reach_required': ['ran', 'finish_while_other_runs'],
+    'reach_required': ['ran', 'finish_while_other_runs',
+                       'finish_failed_midway'],
 }
